@@ -156,24 +156,38 @@ package tree
 //@   loop 0 invariant forall(x, Hash, rhtHas(t)[x] ==> x == H(rhtL(t)[x], rhtR(t)[x]))
 //@   loop 0 invariant forall(k, 0, i, rhtHas(t)[nodes[k].Hash] && rhtL(t)[nodes[k].Hash] == nodes[k].Left && rhtR(t)[nodes[k].Hash] == nodes[k].Right)
 
+//@ ghost field rootLastIdx int
 //@ func (t *Tree) getLastRootWithTx
 //@   props C01 C07
 //@   trusted
 //@   sqltext "SELECT * FROM %s ORDER BY block_num DESC, block_position DESC LIMIT 1;"
 //@   requires t != nil
 //@   modifies nothing
+//@   ensures (result1 != nil && isErr(result1, db.ErrNotFound)) ==> rootLastIdx(t) == -1
+//@   ensures result1 == nil ==> rootLastIdx(t) >= 0 && result0.Index == rootLastIdx(t) && rootHas(t)[result0.Index] && result0.Hash == rootHash(t)[result0.Index]
+
+// getRoot() of the deposit contract for size = idx+1, written over the bits of idx (bit h of idx+1 is bitSucc(idx, h))
+//@ spec fn solRootI(branch []Hash, idx uint32, h int) Hash = ite(h <= 0, ZeroHash, ite(bitSucc(idx, h-1), H(branch[h-1], solRootI(branch, idx, h-1)), H(solRootI(branch, idx, h-1), zeroAt(h-1))))
+//@ lemma rootOverIndexBits(branch []Hash, idx uint32)
+//@   props C01
+//@   requires idx < 4294967295
+//@   ensures[same-root] solRootI(branch, idx, 32) == solRoot(branch, uint32(idx + 1), 32)
 
 // rebuilding the frontier from the stored tree (restart, reorg, after a rollback).
-// Checked: a failed rebuild leaves the in-memory frontier exactly as it was (so it is still either marked
-// invalid or consistent). Assumed (not yet proved): a successful rebuild yields the frontier of the mirrored
-// contract, i.e. the stored tree is the tree whose frontier the ghost state describes.
+// Proved: a failed rebuild leaves the in-memory frontier exactly as it was; a successful rebuild over a root table
+// whose last row is the mirrored contract's current root (index = deposit count - 1) yields exactly the contract's
+// frontier at every level the next append reads (the levels where the next index has a one bit).
 //@ func (t *AppendOnlyTree) initCache
 //@   props C01 C07
 //@   requires t != nil && t.Tree != nil
 //@   modifies t.lastIndex, t.lastLeftCache
 //@   ensures[failed-rebuild-leaves-frontier-untouched] result != nil ==> t.lastIndex == old(t.lastIndex) && t.lastLeftCache == old(t.lastLeftCache)
-//@   ensuresassumed result == nil ==> t.lastIndex + 1 == solCount(t) && forall(h, 0, 32, bitAt(uint32(solCount(t)), h) ==> t.lastLeftCache[h] == solBranch(t)[h])
+//@   ensures[rebuilt-index] result == nil ==> t.lastIndex == rootLastIdx(t.Tree)
+//@   ensures[rebuilt-frontier-is-contract-frontier] (result == nil && rootLastIdx(t.Tree) >= 0 && rootLastIdx(t.Tree) < 4294967295 && rootHash(t.Tree)[rootLastIdx(t.Tree)] == solRootI(solBranch(t), rootLastIdx(t.Tree), 32)) ==> forall(k, 0, 32, bitSucc(rootLastIdx(t.Tree), k) ==> t.lastLeftCache[k] == solBranch(t)[k])
 //@   loop 0 unroll 32
+//@   loop 0 invariant index == lastRoot.Index && lastRoot.Index == rootLastIdx(t.Tree) && lastRoot.Hash == rootHash(t.Tree)[rootLastIdx(t.Tree)]
+//@   loop 0 invariant (rootHash(t.Tree)[rootLastIdx(t.Tree)] == solRootI(solBranch(t), lastRoot.Index, 32) && !allOnes(lastRoot.Index, h + 1)) ==> currentNodeHash == solRootI(solBranch(t), lastRoot.Index, h + 1)
+//@   loop 0 invariant rootHash(t.Tree)[rootLastIdx(t.Tree)] == solRootI(solBranch(t), lastRoot.Index, 32) ==> forall(k, h + 1, 32, bitSucc(lastRoot.Index, k) ==> siblings[k] == solBranch(t)[k])
 //@   loop 1 unroll 1
 
 //@ func (t *AppendOnlyTree) AddLeaf$1
